@@ -1273,6 +1273,17 @@ def GENSW(ctx):
                                                                  rng.choice([0, 1, 10, 1000, 1000]))
             out = ctx.corr(line)
             ctx.case(line, out.startswith("ok"), "gen:repair_dna")
+        # graph builders: masks of every density, int and bool dtype, thresholds 1..4
+        if rng.random() < 0.6:
+            kk = rng.choice([1, 2, 2, 3])
+            mask = gen.rand_mask(rng, kk, rng.choice([0.0, 0.3, 0.6, 0.8, 0.95, 1.0]))
+            mt = "A[" + ";".join(("i%d" % x) if it % 2 else ("bT" if x else "bF") for x in mask) + "]"
+            line = "gen connect_valid_graph i%d %s bF" % (kk, mt)
+            out = ctx.corr(line)
+            ctx.case(line, out.startswith("ok"), "gen:connect_valid_graph")
+            line = "gen connect_coding_graph i%d %s i%d bF" % (kk, mt, rng.choice([1, 1, 2, 2, 3, 4]))
+            out = ctx.corr(line)
+            ctx.case(line, out.startswith("ok"), "gen:connect_coding_graph")
         if len(w) >= 1:
             occ = rng.randrange(len(w))
             line = "gen path_matching s%s %s i%d i%d %s n" % (w[:2 * k + 1], _wire_acc(rows), rng.choice([v, rng.randrange(g.n), -1]),
